@@ -92,6 +92,7 @@ type caseGen struct {
 	psubs   []string
 	dsubs   []string
 	late    bool
+	single1 bool
 	nsub    int
 	started bool
 }
@@ -166,6 +167,10 @@ func (g *caseGen) safeOuts(o Obj) Obj {
 }
 
 func (g *caseGen) pset(o Obj) {
+	if g.single1 { // a singleton has no input collection: change the fetched collection instead
+		g.sset(genObj(g.r, snames))
+		return
+	}
 	g.d.primSet(o)
 	if g.r.Chance(10, 100) {
 		g.emit("p.cset", o.Token())
@@ -175,6 +180,9 @@ func (g *caseGen) pset(o Obj) {
 }
 
 func (g *caseGen) pdel(k string) {
+	if g.single1 {
+		return
+	}
 	g.d.primDel(k)
 	g.emit("p.del", k)
 }
@@ -394,7 +402,7 @@ func (g *caseGen) op() {
 	case x < 74:
 		if r.Chance(12, 100) { // DeleteObjects on one namespace
 			ns := wire.Pick(r, nss)
-			if r.Chance(50, 100) {
+			if r.Chance(50, 100) && !g.single1 {
 				for _, p := range g.primKeys() {
 					if g.d.prim[p].NS == ns {
 						g.d.primDel(p)
@@ -446,6 +454,9 @@ func (g *caseGen) op() {
 	case x < 86:
 		g.sync()
 	case x < 89: // Reset of the inputs: drops some, changes payloads, claims stay where they are
+		if g.single1 {
+			break
+		}
 		var objs []Obj
 		toks := []string{"p.reset"}
 		for _, p := range g.primKeys() {
@@ -549,6 +560,15 @@ func genCase(r *wire.Rng, n int, stream string, w *wire.Out) {
 	}
 	if g.secmode != "" {
 		head = append(head, g.secmode)
+	}
+	single1 := !g.f6 && r.Chance(8, 100)
+	if single1 {
+		g.t.Multi = false
+		head[3] = g.t.Token()
+		head = append(head, "single1")
+		g.single1 = true
+		g.d = newDisc(g.t, false)
+		g.d.prim[singletonInput.ResourceName()] = singletonInput
 	}
 	g.emit(head...)
 	// initial state present before the derived collection exists
